@@ -102,10 +102,25 @@ def gen_fa(rng, cls=None, max_states=5, max_syms=3, pool=None, eps=True):
             for q in states:
                 if q not in starts and rng.random() < 0.15:
                     churn.append(["s", q])
+    # "prechurn": transitions added and removed again *before* the real ones are added - a real transition may
+    # then land on a (state, symbol) entry that exists but is empty
+    prechurn = []
+    if states and rng.random() < 0.2:
+        for _ in range(rng.randint(1, 3)):
+            if delta and rng.random() < 0.6:
+                q, a, _r = rng.choice(delta)
+            else:
+                q, a = rng.choice(states), rng.randrange(k)
+            if a is None and cls != "E":
+                continue
+            r = rng.choice(states)
+            if [q, a, r] not in prechurn and not (cls == "D" and any(t[0] == q and t[1] == a for t in prechurn)):
+                prechurn.append([q, a, r])
     # queries issued while the temporary pieces are present: what they compute must not outlive the removal
     churn_query = bool(churn) and rng.random() < 0.6
     return {"cls": cls, "svals": svals, "symvals": symvals, "starts": starts, "finals": finals,
-            "delta": delta, "extra_syms": extra_syms, "iso": iso, "churn": churn, "churn_query": churn_query}
+            "delta": delta, "extra_syms": extra_syms, "iso": iso, "churn": churn, "churn_query": churn_query,
+            "prechurn": prechurn}
 
 
 def enumerate_fa(max_states, nsyms, cls="E", eps=True):
@@ -137,6 +152,10 @@ def build(spec):
         fa.add_start_state(sv[q])
     for q in spec["finals"]:
         fa.add_final_state(sv[q])
+    for q, a, r in spec.get("prechurn", []):
+        fa.add_transition(sv[q], Epsilon() if a is None else yv[a], sv[r])
+    for q, a, r in spec.get("prechurn", []):
+        fa.remove_transition(sv[q], Epsilon() if a is None else yv[a], sv[r])
     for q, a, r in spec["delta"]:
         fa.add_transition(sv[q], Epsilon() if a is None else yv[a], sv[r])
     for a in spec.get("extra_syms", []):
